@@ -505,7 +505,13 @@ def grid_pairs(R: Run, geom, GeoBox, GeoboxTiles, Affine):
         ox, oy = rng.uniform(-1e6, 1e6), rng.uniform(-1e6, 1e6)
         S = Affine(res, 0, ox, 0, -res, oy)
         k = rng.choice([1, 1, 2, 3, 0.5, 1.5])
-        D = Affine(res * k, 0, ox + res * rng.uniform(-6, 10), 0, -res * k, oy - res * rng.uniform(-6, 10))
+        def shift():
+            if rng.random() < 0.5:
+                return rng.uniform(-6, 10)
+            # a hair away from whole source pixels / the snapping tolerance of 1e-3 px
+            return rng.randint(-6, 10) + rng.choice([0, 1e-6, 1e-9, 1e-11, 9e-4, 1.1e-3, 2.0**-40, 0.5 - 1e-9]) * rng.choice([1, -1])
+
+        D = Affine(res * k, 0, ox + res * shift(), 0, -res * k, oy - res * shift())
         pair_case(dspec, sspec, D, S, "float", exact=False)
 
     # cross-CRS pairs (oracle only, 0.5 px² threshold; footprints through pyproj)
@@ -536,19 +542,77 @@ def grid_pairs(R: Run, geom, GeoBox, GeoboxTiles, Affine):
              {"cross": True, "far": True, "swapped": True}, f"{deps}", sig="disjoint|cross-crs")
 
 
+def _maybe_int_exact(x: Fraction, tol: Fraction):
+    t = Fraction(math.trunc(x))
+    part = x - t
+    if part > Fraction(1, 2):
+        t, part = t + 1, part - 1
+    elif part < -Fraction(1, 2):
+        t, part = t - 1, part + 1
+    return (t, True) if abs(part) < tol else (x, False)
+
+
+def _snap_scale_exact(s: Fraction, tol: Fraction):
+    if abs(s) >= 1 - tol:
+        return _maybe_int_exact(s, tol)[0]
+    if abs(s) < tol:
+        return s
+    v, snapped = _maybe_int_exact(1 / s, tol)
+    return 1 / v if snapped else s
+
+
+def snap_exact(A):
+    """snap_affine re-computed with exact rationals (documented tolerances as the doubles they are)"""
+    a, b, c, d, e, f = (Fraction(v) for v in tuple(A)[:6])
+    if abs(b) > TOL or abs(d) > TOL:
+        return (a, b, c, d, e, f)
+    return (_snap_scale_exact(a, STOL), Fraction(0), _maybe_int_exact(c, TTOL)[0], Fraction(0),
+            _snap_scale_exact(e, STOL), _maybe_int_exact(f, TTOL)[0])
+
+
 def snap_cases(R: Run, Affine):
     from odc.geo.math import snap_affine
 
     rng = R.rng
     vals = [0, 1, -1, 2, -3, 0.5, -0.25, 0.125, 1 + 2**-21, 1 - 2**-21, 0.5 + 2**-22, 3 + 2**-9, 2**-11, -2**-11,
             1 + 2**-11, 5.5, -5.5, 2.5, 7 + 2**-10, 7 - 2**-10, 2**-30, 2**-25, -2**-34, 0.75, 1.5]
-    for _ in range(R.pick(1500, 15000)):
-        a, e = rng.choice(vals), rng.choice(vals)
-        b, d = rng.choice([(0, 0), (0, 0), (2**-30, 0), (0, -2**-28), (2**-20, 0), (0.5, -0.5), (2**-34, 2**-35)])
-        c, f = rng.choice(vals) * rng.choice([1, 8, 100]), rng.choice(vals) * rng.choice([1, 8, 100])
+    # doubles a hair on either side of the tolerances (1e-3 translation, 1e-6 scale, 1e-8 rotation) and of .5
+    hair = [0.0, 1e-10, 1e-13, 2.0**-40, 1e-9]
+
+    def near_tr():
+        k = rng.randint(-9, 9)
+        off = rng.choice([1e-3, 1e-3, 0.5, 1e-6, 1e-10, 0.0, 9.99e-4, 1.001e-3]) * rng.choice([1, -1])
+        return k + off + rng.choice(hair) * rng.choice([1, -1])
+
+    def near_sc():
+        k = rng.choice([1, -1, 2, -2, 3, 10])
+        off = rng.choice([1e-6, 1e-6, 9.99e-7, 1.001e-6, 1e-10, 0.0]) * rng.choice([1, -1])
+        return k + off + rng.choice([0.0, 1e-13, 1e-15]) * rng.choice([1, -1])
+
+    for it in range(R.pick(3000, 30000)):
+        if it % 2:
+            a, e = rng.choice(vals), rng.choice(vals)
+            c, f = rng.choice(vals) * rng.choice([1, 8, 100]), rng.choice(vals) * rng.choice([1, 8, 100])
+        else:
+            a, e = rng.choice([near_sc(), rng.choice(vals)]), rng.choice([near_sc(), rng.choice([1, -1, 2, 0.5])])
+            c, f = near_tr(), near_tr()
+        b, d = rng.choice([(0, 0), (0, 0), (2**-30, 0), (0, -2**-28), (2**-20, 0), (0.5, -0.5), (2**-34, 2**-35),
+                           (1e-8, 0), (0, 1.0000001e-8), (9.9999e-9, -1e-8), (1e-10, 1e-10)])
         A = Affine(a, b, c, d, e, f)
-        R.corr(f"c12 snap {aff_s(A)} {frac_s(TTOL)} {frac_s(STOL)} {frac_s(TOL)}",
-               lambda: aff_s(snap_affine(A)), sig="snap|" + ("rot" if (b or d) else "st"))
+        res = []
+
+        def fs():
+            o = snap_affine(A)
+            res.append(o)
+            return aff_s(o)
+
+        R.corr(f"c12 snap {aff_s(A)} {frac_s(TTOL)} {frac_s(STOL)} {frac_s(TOL)}", fs,
+               sig="snap|" + ("rot" if (b or d) else "st") + ("|near-tol" if it % 2 == 0 else ""))
+        # two-sided oracle; `1 / s` is the only inexact double operation, skip those inputs
+        if res and all(abs(v) >= 1 - 1e-6 or v == 0 or math.frexp(v)[0] == 0.5 or math.frexp(v)[0] == -0.5 for v in (a, e)):
+            want = snap_exact(A)
+            R.oracle(tuple(Fraction(v) for v in tuple(res[0])[:6]) == want, "snap-affine-not-exact", {"A": aff_s(A)},
+                     f"snap_affine gives {aff_s(res[0])}, exact arithmetic {';'.join(frac_s(v) for v in want)}", sig="snap2")
 
 
 def run(R: Run):
